@@ -7,16 +7,16 @@ VERIF = os.path.dirname(HERE)
 TECH = "bounded symbolic execution of the compiled Rust (Kani 0.68 -> CBMC 6.11), verdict by SAT solver (CaDiCaL) over all symbolic inputs within the unwind bound; counterexamples replayed natively on the stock build"
 
 CLAIMS = {
-    "C01": ("Per packet kind (generated from the source + an independent spec table): every field symbolic in its wire domain, the real Packet/BinWrite writer then the real BinRead reader return an equal value and consume the whole frame. Bounded: text of fixed small length with symbolic ASCII content, element counts 0..2, time fields from a boundary menu.",
-            "Struct-level through <Packet as BinWrite>::write_options into a slice cursor (Codec::encode over a symbolic payload does not close; its size-byte/Bytes part is decided for Default payloads per kind and for every length by the kernel). Re-encode identity follows from field-wise equality of ALL fields + determinism of the writer and is not separately queried. Only the kinds/configurations listed in closing_set.json; codepage conversion stubbed (ASCII); hash-set payloads empty; Ver.version fixed."),
-    "C02": ("Same symbolic values, differential against reference frames built from spec/insim_v9.py (offsets, widths, enumerant numbers, bit positions, spare bytes zero): encoder output == reference byte for byte, and the reader on the reference frame recovers the values; plus concrete tables of every enum number and flag bit.",
-            "Oracle is my transcription of InSim.txt v9 / relay (no copy in the sandbox); PSE_ pit-work bit numbers and time units not claimed; bounds as C01."),
-    "C03": ("Length kernel for every usize length and both modes; per kind: frame length multiple of 4 within range, type byte, count byte == elements (counts 0..2, text lengths fixed), Codec::encode(Default payload) == size byte + writer output in both modes, and packets obtained by decoding arbitrary bytes never abort the writer (kinds without text).",
-            "Counts above 2 and texts of other lengths are outside; re-encode-after-decode for text kinds does not close (symbolic text length)."),
-    "C04": ("Mode::decode_length for every first byte x buffer length 0..=1100 x mode; per kind the real reader over arbitrary bytes of the nominal body size never panics and never reads beyond the frame (count bytes concrete 0..2).",
-            "Codec::decode itself (BytesMut split_to/advance, type dispatch, error path progress) does NOT close under CBMC and is not decided: a change confined to it is invisible to this check."),
-    "C06": ("blocking Framed::write over a transport accepting any k in 1..=len bytes per call: two packets arrive complete, contiguous, in order (both modes).",
-            "blocking connection only; 2 packets <= 12 bytes; the tokio write path hand-polled does not close and is not claimed; UDP/WebSocket adaptors not claimed."),
+    "C01": ('Per packet kind (generated from the source + an independent spec table), every configuration that closes (closing_set.json): every field symbolic in its wire domain, the real <Packet as BinWrite> writer then the real <K as BinRead> reader return a field-wise equal value and consume the whole frame.',
+            'Writer entered through Packet::write_options on a slice cursor (Codec::encode over a symbolic payload does not close; its size byte is decided for every length by the C03 kernel and per kind on Default payloads). The re-encode clause follows from field-wise equality of ALL fields + determinism of the writer and is not separately queried. Text of concrete length (3 / full width <= 24 / 0) with symbolic ASCII content, counts 0..2, time fields from a boundary menu, SMALL one sub-type per query (timed sub-types: C15), hash sets empty, Ver/Res/Hcp/Mso(read side)/relay host lists with elements outside. Codepage conversion stubbed (ASCII).'),
+    "C02": ('Same symbolic values, differential against reference frames built from spec/insim_v9.py (offsets, widths, enumerant numbers, bit positions, spare bytes zero): writer output == reference byte for byte, and the reader on the reference frame recovers the values; concrete tables of every enum number, flag bit and PLC car bit.',
+            'Oracle is my transcription of InSim.txt v9 / relay from memory (no copy in the sandbox); PSE_ pit-work bit numbers, time units in prose, IP byte order and PlayerHandicapFlags constants not claimed; bounds as C01 (for MSO/RIP/VER only the typed->bytes direction closes).'),
+    "C03": ('Mode::encode_length for EVERY usize length and both modes (legal lengths get the specified size byte, every illegal length is refused by a panic, never given a size byte); per kind: frame multiple of 4 in range, type byte, count byte == elements (counts 0..2 symbolic elements; 61 Default elements for AXM/NLP), Codec::encode(Default payload) == size byte + writer output in both modes, decoded packets never abort the writer (kinds without text; MAL: whatever the reader accepts is a mod id).',
+            'Other counts and text lengths outside; decode-then-encode for text kinds does not close (decoded text has a symbolic length).'),
+    "C04": ('Mode::decode_length for every first byte x buffer length 0..=1100 x mode; per kind the real reader over arbitrary bytes of the nominal body size never panics and never reads beyond the frame (count / TextStart bytes concrete per query); Codec::decode on an unknown-type frame + symbolic tail: error, exactly the frame removed, tail intact.',
+            "Codec::decode on frames of a KNOWN type with symbolic bytes or a symbolic buffer length does not close: the success path's frame removal and the decode-side type dispatch are not decided. Body readers of Isi/Small/Plc/Ver outside (raw UTF-8 validation, hash-set construction, float parsing)."),
+    "C06": ('blocking Framed::write twice over a transport accepting any k in 1..=len bytes per call: both frames arrive complete, contiguous, in call order, one encode per packet.',
+            "Codec::encode is replaced by a frame model (4- and 8-byte frames of symbolic content) in this harness - over the real encoder's Bytes the query exceeds 16 GB; -Z restrict-vtable is required. Blocking connection only: tokio write path, UDP and WebSocket adaptors not claimed."),
     "C07": ("Packet::maybe_pong / Tiny::is_keepalive for every TINY (256 request ids x all sub-types) and every other kind.",
             "Decision function only: that Framed::read writes the reply once, before returning, and nothing else, is NOT decided (read loop does not close)."),
     "C09": ("Packet::maybe_verify_version for all 256 versions and every other kind; VERSION == 9.",
@@ -31,8 +31,8 @@ CLAIMS = {
             "32-bit SMALL wire round trips per sub-type may be tiered thorough (128-bit arithmetic)."),
     "C16": ("Ord/PartialOrd/PartialEq of GameVersion over three symbolic values: reflexive, antisymmetric, transitive, consistent with ==, ordered by (number, letter, revision-or-0).",
             "Order/equality half only; NaN and -0.0 excluded (not producible by the parser - argument from reading). Parser/printer half not applicable (dec2flt / float formatting)."),
-    "C17": ("PTH: images with node count 0/1/2 and all other bytes symbolic parse and re-write byte-identically; wrong magic, fixed truncation points and hostile count fields (-1, i32::MIN, i32::MAX, 10^6) are rejected without panic. SMX: images with 0/1 objects, ASCII track name.",
-            "Counts and truncation points are concrete per harness (symbolic ones do not close); files/allocation size outside."),
+    "C17": ('PTH: images with node count 0/1/2 and all other bytes symbolic parse and re-write byte-identically; wrong magic, fixed truncation points and hostile count fields (-1, i32::MIN, i32::MAX, 10^6) are rejected without panic. SMX: writer output for a value with one object/point/triangle/checkpoint equals the documented layout.',
+            'Counts and truncation points are concrete per harness (symbolic ones do not close); the SMX READER does not close and is outside; files and allocation size outside.'),
     "C18": ("Symbolic builder program (flag setters in any order with overrides, wholesale replacement, prefix/interval/reqi present or absent, transport chosen twice) -> Builder::isi field by field; blocking handshake over a recording transport sends exactly the 44-byte ISI in the configured mode.",
             "Handshake harness uses a concrete configuration apart from the request id (Codec::encode over a symbolic ISI does not close); real sockets outside."),
 }
